@@ -140,11 +140,11 @@ def handle (op : String) (args : List String) : Option String :=
       let h ← ofHex h
       let d ← ofHex d
       let p := My.setData ⟨h, []⟩ d
-      pure s!"{hexOf p.header} {showBig (My.dump p)}"
+      pure s!"ok {hexOf p.header} {showBig (My.dump p)}"
   | "my.setdata.len", [h, n] => do
       let h ← ofHex h
       let n ← n.toNat?
-      pure (hexOf (My.updatePacketSize h n))
+      pure ("ok " ++ hexOf (My.updatePacketSize h n))
   | "my.replacequery", [h, d, q] => do
       let h ← ofHex h
       let d ← ofHex d
@@ -156,7 +156,7 @@ def handle (op : String) (args : List String) : Option String :=
       let n ← n.toNat?
       let seed ← seed.toNat?
       let payload := (List.range n).map fun i => UInt8.ofNat ((i * 7 + seed) % 256)
-      pure (showBig (My.encodePayload seq payload))
+      pure ("ok " ++ showBig (My.encodePayload seq payload))
   | "my.relaygen", [seq, n, seed] => do
       -- relay of a protocol-encoded payload given by rule: read it, dump it, compare with what was sent
       let seq ← seq.toNat?
@@ -240,11 +240,11 @@ def handle (op : String) (args : List String) : Option String :=
       let rf ← parseNats rf
       pure (hexOf (Pg.encodeBind portal stmt pf pv rf))
   -- bytea text codecs
-  | "bytea.octal.enc", [b] => do let b ← ofHex b; pure (hexOf (Bytea.encodeToOctal b))
+  | "bytea.octal.enc", [b] => do let b ← ofHex b; pure ("ok " ++ hexOf (Bytea.encodeToOctal b))
   | "bytea.octal.dec", [b] => do
       let b ← ofHex b
       pure (match Bytea.decodeOctal b with | some r => "ok " ++ hexOf r | none => "err")
-  | "bytea.hex.enc", [b] => do let b ← ofHex b; pure (hexOf (Bytea.pgEncodeToHex b))
+  | "bytea.hex.enc", [b] => do let b ← ofHex b; pure ("ok " ++ hexOf (Bytea.pgEncodeToHex b))
   | "bytea.escaped.dec", [b] => do
       let b ← ofHex b
       pure (match Bytea.decodeEscaped b with | .ok r => "ok " ++ hexOf r | .error .hex => "err-hex" | .error .octal => "err-octal")
